@@ -1,6 +1,7 @@
 //! vcheck: runs the check of one property (default revm feature set).
 mod common;
 mod dbcheck;
+mod eofcheck;
 mod evmrun;
 mod histcheck;
 mod journalcheck;
@@ -69,6 +70,7 @@ fn main() {
             std::process::exit(0);
         }
         "C25" => monchecks::c25(&mut ctx),
+        "C26" => eofcheck::c26(&mut ctx),
         "C27" => pure::c27(&mut ctx),
         "C28" => monchecks::c28(&mut ctx),
         "C29" => monchecks::c29(&mut ctx),
